@@ -260,6 +260,10 @@ import paramiko.channel as _pchannel
 import paramiko.message as _pmessage
 
 TRACE = {_pchannel.__file__: None, _pmessage.__file__: {"get_int", "get_bytes", "get_adaptive_int", "get_int64"}}
+# the functions that update a credit counter are stepped per bytecode: `self.n += k` is one line but a load and a
+# store, and the interpreter may switch threads in between
+OPCODE_FUNCS = {"_window_adjust", "_check_add_window"}
+SEAM_KW = {"trace_files": TRACE, "opcode_funcs": OPCODE_FUNCS}
 SEAMS = ["readers:recv+recv_stderr", "readers:recv+recv", "readers:recv+recv_small", "adjust+send",
          "adjust+send+send_stderr", "feed+recv", "adjust+reader+send"]
 
@@ -346,7 +350,8 @@ def make_seam_body(scn):
 
 
 def seam_item(item, acc):
-    tier, scn, bound, shard = item
+    tier, scn, bound, shard = item[:4]
+    opc = item[4] if len(item) > 4 else False
     body = make_seam_body(scn)
     shapes = set()
 
@@ -363,10 +368,12 @@ def seam_item(item, acc):
             acc.nt(("seam", scn, shape))
         if v is not None:
             acc.violation("ledger:%s:counter-seam:%s" % (v[0], scn[0]),
-                          {"scn": scn, "why": v[1], "choices": ex.choices},
-                          {"part": "seam", "scn": scn, "choices": ex.choices})
-    res = explore.explore(body, bound, "preempt", cap=40000, on_exec=on_exec, sched_kw={"trace_files": TRACE},
-                          shard=shard)
+                          {"scn": scn, "why": v[1], "choices": ex.choices, "bytecode_granularity": opc},
+                          {"part": "seam", "scn": scn, "choices": ex.choices, "opc": opc})
+    res = explore.explore(body, bound, "preempt", cap=40000, on_exec=on_exec,
+                          sched_kw=dict(SEAM_KW) if opc else {"trace_files": TRACE}, shard=shard)
+    if opc:
+        acc.count("seam_schedules_at_bytecode_granularity", res.executions)
     acc.count("seam_schedules", res.executions)
     if shard[0] == 0:
         acc.count("seam_scenarios")
@@ -425,6 +432,10 @@ def main(tier):
                 b -= 1                            # second configuration: one preemption less
             nsh = 4 if b == 2 else (16 if b >= 3 else 1)
             items += [("seam", tier, (kind, W, P), b, (k, nsh)) for k in range(nsh)]
+            # the same seam with the counter-updating functions stepped per bytecode (one preemption less)
+            ob = max(1, b - 1)
+            osh = 4 if ob >= 2 else 1
+            items += [("seam", tier, (kind, W, P), ob, (k, osh), True) for k in range(osh)]
 
     def run(item, acc):
         if item[0] == "bfs":
@@ -457,7 +468,8 @@ def replay(rec):
         print("ledger verdict:", v)
         return 1 if v else 0
     if r["part"] == "seam":
-        ex = explore.replay(make_seam_body(tuple(r["scn"])), r["choices"], "preempt", {"trace_files": TRACE})
+        ex = explore.replay(make_seam_body(tuple(r["scn"])), r["choices"], "preempt",
+                            dict(SEAM_KW) if r.get("opc") else {"trace_files": TRACE})
         print(ex.outcome, ex.error, ex.value and (ex.value[0], ex.value[2:]))
         return 1 if (ex.outcome != "ok" or ex.value[0] is not None) else 0
     scn = r["scn"]
